@@ -32,6 +32,8 @@ func c17Schema() TxnSchema {
 		{Name: "Log", IsRoot: true, Cols: []ColSpec{{Name: "name", Type: str}, {Name: "n", Type: num}}},
 		// two unique indexes: the competition is for a value of the first or of the second one
 		{Name: "Uniq", IsRoot: true, Indexes: [][]string{{"name"}, {"alt"}}, Cols: []ColSpec{{Name: "name", Type: str}, {Name: "alt", Type: str}, {Name: "n", Type: num}}},
+		// two counters whose (unique) names are exchanged by some transactions and incremented by name by others
+		{Name: "Sw", IsRoot: true, Indexes: [][]string{{"name"}}, Cols: []ColSpec{{Name: "name", Type: str}, {Name: "n", Type: num}}},
 		{Name: "Holder", IsRoot: true, Indexes: [][]string{{"name"}}, Cols: []ColSpec{{Name: "name", Type: str}, {Name: "n", Type: num},
 			{Name: "items", Type: ColType{Kind: "set", Key: "uuid", Min: 0, Max: -1}, RefTable: "Item", RefType: "strong"}}},
 		{Name: "Item", IsRoot: false, Cols: []ColSpec{{Name: "name", Type: str}, {Name: "n", Type: num}}},
@@ -99,6 +101,8 @@ func c17Run(r *Run, h int) {
 	setup := []OperationJ{
 		{Op: "insert", Table: "Ctr", UUID: mkUUID(1), Row: Row{"name": VA(AS("c0")), "n": VA(AI(0))}},
 		{Op: "insert", Table: "Ctr", UUID: mkUUID(2), Row: Row{"name": VA(AS("c1")), "n": VA(AI(0))}},
+		{Op: "insert", Table: "Sw", UUID: mkUUID(21), Row: Row{"name": VA(AS("s0")), "n": VA(AI(0))}},
+		{Op: "insert", Table: "Sw", UUID: mkUUID(22), Row: Row{"name": VA(AS("s1")), "n": VA(AI(0))}},
 		{Op: "insert", Table: "Item", UUID: mkUUID(3), Row: Row{"name": VA(AS("i0")), "n": VA(AI(0))}},
 		{Op: "insert", Table: "Item", UUID: mkUUID(4), Row: Row{"name": VA(AS("i1")), "n": VA(AI(0))}},
 		{Op: "insert", Table: "Holder", UUID: mkUUID(5), Row: Row{"name": VA(AS("h0")), "n": VA(AI(0)), "items": VS(AU(mkUUID(3)), AU(mkUUID(4)))}},
@@ -158,7 +162,7 @@ func c17Run(r *Run, h int) {
 			n = 20 + rng.Intn(20)
 		}
 		for k := n; k > 0; k-- {
-			plans[ci] = append(plans[ci], []string{"inc", "inc", "rmw", "cas", "cas", "claim", "move", "share", "drop", "dropclaim", "lookclaim"}[rng.Intn(11)])
+			plans[ci] = append(plans[ci], []string{"inc", "inc", "rmw", "cas", "cas", "claim", "move", "share", "drop", "dropclaim", "lookclaim", "swap", "swinc", "swinc"}[rng.Intn(14)])
 		}
 	}
 	seeds := make([]int64, nCli)
@@ -272,6 +276,19 @@ func c17Run(r *Run, h int) {
 						ops = append(ops, OperationJ{Op: "insert", Table: "Uniq", UUID: mkUUID(300000 + ci*1000 + k), Row: Row{"name": VA(AS(nm)), "alt": VA(AS(fmt.Sprintf("drop-%d-%d", ci, k))), "n": VA(AI(int64(ci)))}})
 					}
 					ops = append(ops, logOp)
+				case "swap":
+					// the two rows of Sw exchange their names in one transaction (each step by name, through
+					// a name of its own): unique index values move between rows
+					tmp := fmt.Sprintf("tmp-%d-%d", ci, k)
+					byName := func(n string) []WCondJ { return []WCondJ{{Col: "name", Fn: "==", Val: VA(AS(n))}} }
+					ops = []OperationJ{
+						{Op: "update", Table: "Sw", Where: byName("s0"), Row: Row{"name": VA(AS(tmp))}},
+						{Op: "update", Table: "Sw", Where: byName("s1"), Row: Row{"name": VA(AS("s0"))}},
+						{Op: "update", Table: "Sw", Where: byName(tmp), Row: Row{"name": VA(AS("s1"))}},
+						logOp}
+				case "swinc":
+					ops = []OperationJ{{Op: "mutate", Table: "Sw", Where: []WCondJ{{Col: "name", Fn: "==", Val: VA(AS([]string{"s0", "s1"}[lr.Intn(2)]))}},
+						Mutations: []MutationJ{{Col: "n", Mutator: "+=", Val: VA(AI(1))}}}, logOp}
 				case "move":
 					item := mkUUID(3 + lr.Intn(2))
 					from, to := "h0", "h1"
@@ -490,6 +507,35 @@ func c17Run(r *Run, h int) {
 				}
 			}
 		}
+	}
+	// the names of Sw are always held by exactly one row each: every increment by name hits one row, and
+	// the two counters add up to the number of increments
+	var swIncs, swSum int64
+	for _, t := range byMarker {
+		if t.Accepted && t.Kind == "swinc" {
+			swIncs++
+			if len(t.Results) == 0 || !strings.HasPrefix(t.Results[0], "count=1") {
+				r.Violation("serial", cs, strings.Join(t.Results, ";"), "count=1", true, "an increment by (unique) name did not find the row that holds the name", "")
+				return
+			}
+		}
+		if t.Accepted && t.Kind == "swap" {
+			for i := 0; i < 3 && i < len(t.Results); i++ {
+				if !strings.HasPrefix(t.Results[i], "count=1") {
+					r.Violation("serial", cs, strings.Join(t.Results, ";"), "count=1 three times", true, "an exchange of two unique names did not find both rows", "")
+					return
+				}
+			}
+		}
+	}
+	for _, row := range d {
+		if row.Table == "Sw" {
+			swSum += row.Row["n"].A.I
+		}
+	}
+	if swSum != swIncs {
+		r.Violation("serial", cs, fmt.Sprint(swSum), fmt.Sprint(swIncs), true, "increments of the counters whose names are exchanged were lost (or applied twice)", "")
+		return
 	}
 	uniq := map[string]int{}
 	for _, row := range d {
